@@ -210,6 +210,10 @@ class FunctionDefinition:
             if '**' in self.parameters:
                 argdef = self.parameters['**']
                 for key in kwargs:
+                    if key in self.parameters:
+                        # python name of a declared parameter (its keyword
+                        # is the alias): **kwargs cannot carry it
+                        return None
                     keyword_args[key] = argdef
             else:
                 return None
